@@ -25,7 +25,11 @@ pub(crate) fn decode(src: &[u8], dst: &mut [u8]) -> io::Result<()> {
         .decompress(src, dst, InflateFlush::Finish)
         .map_err(|_| io::Error::from(io::ErrorKind::InvalidData))?;
 
-    if status == Status::StreamEnd {
+    // The stream must also fill `dst` (ISIZE bytes). Otherwise, the rest of `dst` is whatever it held
+    // before.
+    let is_filled = u64::try_from(dst.len()).is_ok_and(|n| decoder.total_out() == n);
+
+    if status == Status::StreamEnd && is_filled {
         Ok(())
     } else {
         Err(io::Error::from(io::ErrorKind::InvalidData))
